@@ -3,15 +3,15 @@ import Model.ZoneTxn
 /-! driver ops of C10 (prefix `c10.`): a whole transaction history on one line, its observable trace on one line.
 
 ```
-c10.run  <origin> <rel> <rdclass> <d09> <d10> <ro> <exit:c|x> <zone> <ops>   -- the model of the code
-c10.spec <origin> <rel> <rdclass> <d09> <d10> <ro> <exit:c|x> <zone> <ops>   -- the reference model (flat map)
+c10.run  <origin> <rel> <rdclass> <d09> <d10> <gn> <ro> <exit:c|x> <zone> <ops>   -- the model of the code
+c10.spec <origin> <rel> <rdclass> <d09> <d10> <gn> <ro> <exit:c|x> <zone> <ops>   -- the reference model (flat map)
 c10.serial <old> <value> <relative>                                          -- newSerial
 c10.scmp <a> <b>                                                             -- Serial lt/gt
 zone := "-" | node (";" node)*        node := name "=" [rds ("&" rds)*]
 rds  := cls "/" type "/" covers "/" ttl "/" ("_" | val ("." val)*)
 ops  := "-" | op (";" op)*
 op   := ("add"|"rep"|"del"|"dex") ":" veto ":" [arg ("+" arg)*]
-      | "us:" veto ":" int ":" rel ":" name | "get:" name ":" t ":" c | "ex:" name | "ch" | "dump" | "commit" | "rollback"
+      | "us:" veto ":" int ":" rel ":" name | "get:" name ":" t ":" c | "ex:" name | "gn:" name | "ch" | "dump" | "commit" | "rollback"
 arg  := "n" name | "s" name "~" rds | "d" rds | "r" cls "/" type "/" covers "/" val | "i" nat | "x"
 ```
 Output: one result per op (`ok`, `ok:<value>`, `err:<family>`), then `|`, then the published zone after leaving the
@@ -81,6 +81,7 @@ def parseOp (s : String) : Option Op :=
   | ["us", v, value, rel, n] => do some (.updateSerial (← value.toInt?) (← parseBool rel) (← parseName n) (← parseBool v))
   | ["get", n, t, c] => do some (.get (← parseName n) (← t.toNat?) (← c.toNat?))
   | ["ex", n] => do some (.nameExists (← parseName n))
+  | ["gn", n] => do some (.getNode (← parseName n))
   | ["ch"] => some .changed
   | ["dump"] => some .dump
   | ["commit"] => some .commit
@@ -107,9 +108,6 @@ def showSZone (z : SZone) : String :=
   let names := (z.map (·.1.1)).eraseDups
   showZone (names.map fun n => (n, (z.filter (fun e => e.1.1 == n)).map (·.2)))
 
-/-- the initial flat map of a node map -/
-def flatten (v : Nodes) : SZone :=
-  v.flatMap fun e => e.2.map fun r => ((lowerName e.1, r.rdtype, r.covers), r)
 
 def showRes (r : Res) : String :=
   match r with
@@ -120,13 +118,18 @@ def showRes (r : Res) : String :=
   | .ok (.bool b) => if b then "ok:1" else "ok:0"
   | .ok (.flag b) => if b then "ok:f1" else "ok:f0"
   | .ok (.nodes v) => "ok:[" ++ showZone v ++ "]"
+  | .ok (.szone z) => "ok:[" ++ showSZone z ++ "]"
+  | .ok (.node _ none) => "ok:nonode"
+  | .ok (.node _ (some nd)) => "ok:node[" ++ "&".intercalate (sortStrings (nd.map showRds)) ++ "]"
+  | .ok (.snode _ none) => "ok:nonode"
+  | .ok (.snode _ (some zs)) => "ok:node[" ++ "&".intercalate (sortStrings (zs.map fun e => showRds e.2)) ++ "]"
 
 def lowerKeys (v : Nodes) : Nodes := v.map fun e => (lowerName e.1, e.2)
 
 def handleC10 : List String → Option String
-  | ["c10.run", o, rel, cls, d09, d10, ro, ex, zone, ops] => do
+  | ["c10.run", o, rel, cls, d09, d10, gn, ro, ex, zone, ops] => do
     let cfg : Cfg := { origin := ← parseName o, relativize := ← parseBool rel, rdclass := ← cls.toNat?,
-                       d09 := ← parseBool d09, d10 := ← parseBool d10 }
+                       d09 := ← parseBool d09, d10 := ← parseBool d10, gn := ← parseBool gn }
     let ro ← parseBool ro
     let exc ← if ex = "c" then some false else if ex = "x" then some true else none
     let z := lowerKeys (← parseZone zone)
@@ -135,12 +138,12 @@ def handleC10 : List String → Option String
     let (s1, rs) := run cfg s0 ops
     let s2 := exitTxn s1 exc
     some (" ".intercalate (rs.map showRes) ++ " | " ++ showZone s2.zone)
-  | ["c10.spec", o, rel, cls, _d09, _d10, ro, ex, zone, ops] => do
+  | ["c10.spec", o, rel, cls, _d09, _d10, _gn, ro, ex, zone, ops] => do
     let cfg : Cfg := { origin := ← parseName o, relativize := ← parseBool rel, rdclass := ← cls.toNat?,
                        d09 := false, d10 := false }
     let ro ← parseBool ro
     let exc ← if ex = "c" then some false else if ex = "x" then some true else none
-    let z := flatten (← parseZone zone)
+    let z := flatten (lowerKeys (← parseZone zone))
     let ops ← parseOps ops
     let t0 := if ro then sBeginRead z else sBeginWrite z
     let (t1, rs) := sRun cfg t0 (ops.map toSOp)
